@@ -493,7 +493,10 @@ def fixed_guard_sites(prog, conf):
         for name in conf.m[m.name]['active']:
             for row in m.rows:
                 if row.guard is None or row.src != name: continue
-                if row.evt is None: mask |= 1 << row.guard
+                if row.evt is None:
+                    # (single-step mode: a completion event still pending in the pool has not consulted its guards yet)
+                    if any(q[0] == '<c>' and q[1] == m.name and q[3] == name for q in conf.queue): continue
+                    mask |= 1 << row.guard
                 elif row.act == 'defer' and any(e[0] == row.evt for e in conf.deferred):
                     mask |= 1 << row.guard; val |= 1 << row.guard
     return mask, val
@@ -520,7 +523,7 @@ def emit_harness(prog, confs, steps, tag, throws=False, proj=KINDS_ALL, check_re
     for ci, (conf, script) in enumerate(confs):
         # checkers
         fns = []
-        decs_by_kind = {}
+        decs_by_kind = {}; decs_by_step = {}; decs_by_alt = {}; tsites_by_kind = {}
         my_steps = [st for st in steps if (st[0] == 'start') != conf.started and not (st[0] == 'exec1' and not conf.queue)]
         for st in my_steps:
             paths = explore(prog, conf, lambda sem, st=st: run_step(sem, st), probe=probe, throws=throws)
@@ -548,6 +551,9 @@ def emit_harness(prog, confs, steps, tag, throws=False, proj=KINDS_ALL, check_re
             fns.append((st, fn, len(paths)))
             if st[0] == 'ev':
                 decs_by_kind[prog.events.index(st[1])] = [[[site, v] for site, v in dec.items() if site < 1000] for dec, _, _, _ in paths]
+                tsites_by_kind[prog.events.index(st[1])] = sorted(set(site - 1000 for dec, _, _, _ in paths for site in dec if site >= 1000))
+            else:
+                decs_by_step[fn] = [[[site, v] for site, v in dec.items()] for dec, _, _, _ in paths]
         out.append('void harness_p%d(void) {' % ci)
         out.append('  vf_init();')
         out.append('  vf_projmask = %s;' % ' | '.join('VF_M_' + k for k in proj))
@@ -606,7 +612,14 @@ def emit_harness(prog, confs, steps, tag, throws=False, proj=KINDS_ALL, check_re
             out.append('#ifdef VF_TSITE')
             out.append('  vf_throw_site = VF_TSITE; vf_inputs[7] = (uint32_t)vf_throw_site;')
             out.append('#endif')
+            out.append('#ifdef VF_TSITE_COND')
+            out.append('  { int32_t t = vf_throw_site; VF_ASSUME(VF_TSITE_COND); }   /* case split of the check engine: no consulted position throws */')
+            out.append('#endif')
             out.append('  vf_throw_site0 = vf_throw_site;')
+        out.append('#ifdef VF_EXCLUDE')
+        out.append('  { int32_t K = (int32_t)kind, S = (int32_t)sel, T = %s, W = %s, M = %s; uint32_t G = vf_inputs[3]; (void)K; (void)S; (void)T; (void)W; (void)M; (void)G; VF_ASSUME(!(VF_EXCLUDE)); }   /* inputs of a registered known finding */' % (
+            'vf_throw_site' if throws else '-1', '(int32_t)vf_which' if copy_modes else '0', '(int32_t)cmode' if copy_modes else '0'))
+        out.append('#endif')
         out.append('  vf_nlog = 0; uint32_t r = 0;')
         alt = 0
         if my_ev:
@@ -621,6 +634,7 @@ def emit_harness(prog, confs, steps, tag, throws=False, proj=KINDS_ALL, check_re
         for st, fn, _ in fns:
             if st[0] == 'ev': continue
             out.append('  if (sel == %d) { %s %s(0, P); }' % (alt, step_call(prog, st, None, 'P'), fn))
+            decs_by_alt[alt] = decs_by_step.get(fn, [])
             alt += 1
         if copy_modes:
             out.append('  if (cmode >= 2) { VFN(vf_reuse_moved_from)(); VF_CHECK(VFN(vf_id)(0, 0) == VFN(vf_sid)(%d), "%s:moved-from machine reusable"); }' % (prog.root.states[prog.root.regions[0][0]].idx, tag))
@@ -628,7 +642,7 @@ def emit_harness(prog, confs, steps, tag, throws=False, proj=KINDS_ALL, check_re
         out.append('}')
         index.append({'harness': 'harness_p%d' % ci, 'conf': conf_str(conf),
                       'script': [(list(st), dec) for st, dec in script],
-                      'paths': sum(n for _, _, n in fns), 'decs_by_kind': decs_by_kind, 'nalt': nalt, 'has_ev': bool(my_ev), 'copy_modes': list(copy_modes) if copy_modes else None})
+                      'paths': sum(n for _, _, n in fns), 'decs_by_kind': decs_by_kind, 'decs_by_alt': decs_by_alt, 'tsites_by_kind': tsites_by_kind, 'nalt': nalt, 'has_ev': bool(my_ev), 'copy_modes': list(copy_modes) if copy_modes else None})
         nh += 1
     out.append('#ifndef __CPROVER__')
     out.append('void (*vf_harnesses[])(void) = {%s};' % ', '.join('harness_p%d' % i for i in range(nh)))
@@ -705,7 +719,7 @@ def conf_str(conf):
 
 
 # ------------------------------------------------------------------ product harness (two configurations, no oracle)
-def emit_product_harness(prog, confs, steps, tag, maxslots=8):
+def emit_product_harness(prog, confs, steps, tag, maxslots=8, throws=False):
     """same prefix and the same symbolic step applied to configuration A and configuration B of one program;
     asserts equal logs, equal handled/zero status and equal active configurations (by catalogue state index)"""
     out = ['/* generated by vf/emit.py: product harness for %s (%s) */' % (prog.name, tag),
@@ -743,11 +757,24 @@ def emit_product_harness(prog, confs, steps, tag, maxslots=8):
         out.append('#endif')
         out.append('  vf_nondet_guards(VF_GFIX_MASK | 0x%xu, (VF_GFIX_VAL & ~0x%xu) | 0x%xu);' % (cm, cm, cv))
         out.append('  vf_pn[0] = vf_pn[1] = 0; uint32_t ra = 0, rb = 0;')
+        if throws:
+            out.append('  int32_t ts = (int32_t)vf_nondet(7); VF_ASSUME(ts >= -1 && ts < 256);   /* the same behaviour position throws in both configurations (-1: none) */')
+            out.append('#ifdef VF_TSITE')
+            out.append('  ts = VF_TSITE; vf_inputs[7] = (uint32_t)ts;')
+            out.append('#endif')
+            out.append('#ifdef VF_TSITE_COND')
+            out.append('  { int32_t t = ts; VF_ASSUME(VF_TSITE_COND); }')
+            out.append('#endif')
+            out.append('  vf_pthrow[0] = vf_pthrow[1] = ts;')
+        out.append('#ifdef VF_EXCLUDE')
+        out.append('  { int32_t K = (int32_t)kind, S = (int32_t)sel, T = %s; uint32_t G = vf_inputs[3]; (void)K; (void)S; (void)T; (void)G; VF_ASSUME(!(VF_EXCLUDE)); }   /* inputs of a registered known finding */' % ('ts' if throws else '-1'))
+        out.append('#endif')
         alt = 0
         if my_ev:
             out.append('  if (sel == 0) {')
             out.append('    VF_ASSUME(%s);' % ' || '.join('kind == %d' % prog.events.index(s[1]) for s in my_ev))
             out.append('    ra = (uint32_t)VFA(vf_ev)(kind, P); rb = (uint32_t)VFB(vf_ev)(kind, P);')
+            if throws: out.append('    if (ts < 0 || (vf_pthrow[0] >= 0 && vf_pthrow[1] >= 0))   /* the status of a call in which a behaviour threw is not compared */')
             out.append('    vf_compare_results(ra, rb, "%s");' % tag)
             out.append('  }')
             alt = 1
@@ -759,13 +786,14 @@ def emit_product_harness(prog, confs, steps, tag, maxslots=8):
         out.append('  vf_compare_cfg("%s");' % tag)
         out.append('  VF_WITNESS();')
         out.append('}')
-        decs_by_kind = {}; npaths = 0
+        decs_by_kind = {}; npaths = 0; tsites_by_kind = {}
         for st in my_ev:
-            paths = explore(prog, conf, lambda sem, st=st: run_step(sem, st))
+            paths = explore(prog, conf, lambda sem, st=st: run_step(sem, st), throws=throws)
             npaths += len(paths)
-            decs_by_kind[prog.events.index(st[1])] = [[[site, v] for site, v in dec.items()] for dec, _, _, _ in paths]
+            decs_by_kind[prog.events.index(st[1])] = [[[site, v] for site, v in dec.items() if site < 1000] for dec, _, _, _ in paths]
+            tsites_by_kind[prog.events.index(st[1])] = sorted(set(site - 1000 for dec, _, _, _ in paths for site in dec if site >= 1000))
         index.append({'harness': 'harness_p%d' % ci, 'conf': conf_str(conf), 'script': [(list(st), dec) for st, dec in script],
-                      'paths': npaths, 'decs_by_kind': decs_by_kind})
+                      'paths': npaths, 'decs_by_kind': decs_by_kind, 'tsites_by_kind': tsites_by_kind})
     out.append('#ifndef __CPROVER__')
     out.append('void (*vf_harnesses[])(void) = {%s};' % ', '.join('harness_p%d' % i for i in range(len(confs))))
     out.append('int vf_nharness = %d;' % len(confs))
